@@ -111,6 +111,42 @@ theorem keyfile_text_roundtrip (kf : KeyFile) (h1 : kf.cipherData.WF) (h2 : kf.n
     kf.text.parse = some (kf.cipherData, kf.nonce, kf.salt) := by
   simp [KeyFile.text, KeyFileText.parse, hexutil_roundtrip _ h1, hexutil_roundtrip _ h2, hexutil_roundtrip _ h3]
 
+/-- T4e `keyfile_readonly` (one step): no operation on a key file object — decrypting with the right or a wrong
+    password, unlocking / locking through the Manager, writing it and reading it back, wiping a key store that was
+    handed out — changes the key file the object holds. -/
+theorem kfStep_keyfile (C : CryptoFns) (h : KfHolder) (op : KfOp)
+    (h1 : h.kf.cipherData.WF) (h2 : h.kf.nonce.WF) (h3 : h.kf.salt.WF) : (kfStep C h op).1.kf = h.kf := by
+  cases op with
+  | decrypt pw => rfl
+  | unlock pw =>
+    simp only [kfStep]
+    split <;> rfl
+  | lock => rfl
+  | writeRead =>
+    simp only [kfStep, keyfile_text_roundtrip h.kf h1 h2 h3]
+  | scrub => rfl
+
+/-- T4e (sequences): after ANY sequence of operations the object holds the key file it started with. -/
+theorem kfRun_keyfile (C : CryptoFns) (ops : List KfOp) (h : KfHolder)
+    (h1 : h.kf.cipherData.WF) (h2 : h.kf.nonce.WF) (h3 : h.kf.salt.WF) : (kfRun C h ops).1.kf = h.kf := by
+  induction ops generalizing h with
+  | nil => rfl
+  | cons op ops ih =>
+    have hs := kfStep_keyfile C h op h1 h2 h3
+    simp only [kfRun]
+    rw [ih (kfStep C h op).1 (hs ▸ h1) (hs ▸ h2) (hs ▸ h3), hs]
+
+/-- T4f `keyfile_roundtrip_always`: whatever was done with the object before (any sequence of operations with any
+    passwords), the key file made from `ks` with password `pw` still decrypts with `pw` to exactly the entropy of
+    `ks` — the round trip holds on every decryption, not only the first. -/
+theorem kfRun_right_password (C : Crypto) (ks : KeyStore) (pw salt nonce : Bytes) (unl : Option Bytes)
+    (ops : List KfOp) (hn : nonce.length = Gen.nonceLen)
+    (h1 : (encrypt C.toCryptoFns ks pw salt nonce).cipherData.WF) (h2 : nonce.WF) (h3 : salt.WF) :
+    (kfStep C.toCryptoFns (kfRun C.toCryptoFns ⟨encrypt C.toCryptoFns ks pw salt nonce, unl⟩ ops).1 (.decrypt pw)).2 =
+      .entropy (.ok ks.entropy) := by
+  have hk := kfRun_keyfile C.toCryptoFns ops ⟨encrypt C.toCryptoFns ks pw salt nonce, unl⟩ h1 h2 h3
+  simp only [kfStep, hk, keyfile_roundtrip C ks pw salt nonce hn]
+
 /-- T4b′: what the code does on a key file whose nonce is not 12 bytes: `Decrypt` does not return an error, the AEAD
     panics (modelled as the outcome `nonceLength`). A file written by `Encrypt` never has such a nonce (T4a). -/
 theorem decrypt_bad_nonce_length (C : CryptoFns) (kf : KeyFile) (pw : Bytes) (h : kf.nonce.length ≠ 12) :
